@@ -230,7 +230,8 @@ class C17(Check):
             "constructor, add_signature, file load and save/load; signapp message (output path absent / holding an "
             "older authorization with 0 or 2 signatures / garbage), key, manual, eth "
             "through main(); authorize_signer through adm_ledger.main() against threshold devices "
-            "(k = 1..n, never), every fault kind at every exchange of the authorization dialogue, "
+            "(k = 1..n, never; also files with 8..12 signatures, around the UI's maximum of 10 "
+            "authorizers, with k = n-2, n-1, n, never), every fault kind at every exchange of the authorization dialogue, "
             "and a genuine N-of-M device; every route also with -v/--verbose.  Distinct = (route, input classes, verdict, device log shape).")
     assumptions = [
         "hash and key byte values are seeded, not enumerated; the structure of the menus is fixed",
@@ -361,6 +362,8 @@ class C17(Check):
         for n in range(0, self.maxsig + 1):
             cs.append({"kind": "dev-threshold", "n": n})
             cs.append({"kind": "dev-faults", "n": n})
+        for n in (8, 9, 10, 11, 12):
+            cs.append({"kind": "dev-many", "n": n})
         for m in (3, 4, 5):
             cs.append({"kind": "dev-genuine", "m": m})
         cs.append({"kind": "dev-openhash"})
@@ -959,6 +962,25 @@ class C17(Check):
                     doc = self.auth_doc(0, 5, [0, 1])
                     doc["signer"]["hash"] = hval
                     self.x_dev(Args(doc=doc, policy={"kind": "threshold", "k": 1}), stats, vs)
+
+    def case_dev_many(self, case, stats, vs):
+        """signature counts around the UI's maximal number of authorizers (10): every signature
+        of the file reaches the device until it reports the signer authorized"""
+        n = case["n"]
+        for it in (1, 65535):
+            doc = self.auth_doc(n % 4, it, list(range(n)))
+            for k in sorted({1, 2, n // 2 + 1, n - 2, n - 1, n, n + 1}):
+                self.x_dev(Args(doc=doc, policy={"kind": "threshold", "k": k}, verbose=(k == n)), stats, vs)
+            self.x_dev(Args(doc=doc, policy={"kind": "genuine", "auth": list(range(n))}), stats, vs)
+            # a genuine device that needs the LAST signature: the earlier ones are by outsiders
+            # (duplicates of one authorizer count once)
+            if n >= 3:
+                doc2 = self.auth_doc(n % 4, it, [0] * (n - 2) + [1, 2])
+                self.x_dev(Args(doc=doc2, policy={"kind": "genuine", "auth": [0, 1, 2, 3, 4]}), stats, vs)
+        for fault in ("sw6a04", "timeout"):
+            for at in (n - 1, n):
+                self.x_dev(Args(doc=self.auth_doc(n % 4, 300, list(range(n))),
+                                policy={"kind": "fault", "k": n, "at": at, "fault": fault}), stats, vs)
 
     def case_dev_faults(self, case, stats, vs):
         n = case["n"]
